@@ -218,6 +218,7 @@ def run_text(rep, prop_id, tier, seed, support_ok, view_class_only=False):
     cases = generate(tier, seed, limit)
     lim = limit if limit is not None else 1000
     terms, meta = [], []
+    mterms, mmeta = [], []
     dist = {}
     outcome_dist = {"value": 0, "error": 0, "recursion": 0}
     for label, segs in cases:
@@ -242,6 +243,23 @@ def run_text(rep, prop_id, tier, seed, support_ok, view_class_only=False):
             outcome_dist["error" if exp == "TError" else "recursion"] += 1
         terms.append("mkT %d %s %s %d" % (lim, ctext(segs), exp, min(k, 6)))
         meta.append(replay)
+        # the same text in Decimal mode (the mode _validate_payload uses for the 1.6 charging-profile messages)
+        if label in ("number", "number-soup", "dumps-compact") or (label != "depth" and len(terms) % 3 == 0):
+            import decimal
+            try:
+                vd = json.loads(text, parse_float=decimal.Decimal, parse_constant=decimal.Decimal)
+                expd = "(TValue %s)" % C.cjson(vd)
+            except RecursionError:
+                expd = "TRecursion"
+            except decimal.InvalidOperation:
+                expd = None          # exponent beyond decimal's limits: not modelled (DESIGN.md 10.7)
+            except ValueError:
+                expd = "TError"
+            except TypeError:
+                expd = None
+            if expd is not None:
+                mterms.append("mkM %d %s %s" % (lim, ctext(segs), expd))
+                mmeta.append(dict(replay, mode="decimal"))
     # printing: compact dumps of random values against print_compact (and back)
     rng = random.Random(seed * 17 + 3)
     dterms, dmeta = [], []
@@ -257,13 +275,14 @@ def run_text(rep, prop_id, tier, seed, support_ok, view_class_only=False):
         except (TypeError, ValueError, RecursionError):
             continue
     cov = {"texts": len(terms), "text_strata": dist, "text_outcomes": outcome_dist, "recursion_budget_measured": limit,
-           "dumps_cases": len(dterms)}
+           "dumps_cases": len(dterms), "decimal_mode_texts": len(mterms)}
     if not support_ok:
         return cov
     hdr = C.CASE_HEADER + "From OV.Model Require Import JsonText JsonParse Schema Frame FrameText CaseFrame CaseText.\n"
     shards, owners = [], []
     # heavy cases (extreme exponents, long literals) sit next to each other in the list: deal them round-robin
-    for kind, tms, ctor, fn in (("t", terms, "tcase", "tdisagreements"), ("d", dterms, "dcase", "ddisagreements")):
+    for kind, tms, ctor, fn in (("t", terms, "tcase", "tdisagreements"), ("d", dterms, "dcase", "ddisagreements"),
+                                ("m", mterms, "mcase", "mdisagreements")):
         nsh = max(1, min(C.NCPU * 2, (len(tms) + 39) // 40))
         for j in range(nsh):
             part = tms[j::nsh]
@@ -282,7 +301,7 @@ def run_text(rep, prop_id, tier, seed, support_ok, view_class_only=False):
                           found_input=False)
             continue
         for i in idx:
-            broken.append((meta if kind == "t" else dmeta)[j + i * nsh])
+            broken.append({"t": meta, "d": dmeta, "m": mmeta}[kind][j + i * nsh])
     cov["text_disagreements"] = len(broken)
     if broken:
         rep.violation("%s:corr:text" % prop_id, "model and implementation disagree on %d text(s): json.loads / unpack vs JsonParse.loads / unpack_text" % len(broken),
